@@ -1,6 +1,7 @@
 //! Correspondence harness, reporter tier: hands record batches to the real reporters and
 //! prints what they put on the wire.
 use std::borrow::Cow;
+use std::collections::HashMap;
 use std::io::Read;
 use std::io::Write;
 use std::net::TcpListener;
@@ -154,6 +155,8 @@ fn kvs(a: &[opentelemetry::KeyValue]) -> String {
         .join("&")
 }
 
+static JAEGER: Mutex<Option<HashMap<String, Arc<Mutex<fastrace_jaeger::JaegerReporter>>>>> = Mutex::new(None);
+
 fn step(env: &Env, line: &str) -> String {
     let w: Vec<&str> = line.split_whitespace().collect();
     match w.as_slice() {
@@ -161,12 +164,27 @@ fn step(env: &Env, line: &str) -> String {
             let (Some(svc), Some(recs)) = (str_of_hex(svc), parse_records(recs)) else {
                 return "bad-op".into();
             };
-            let mut rep =
-                fastrace_jaeger::JaegerReporter::new(env.udp.local_addr().unwrap(), svc).unwrap();
+            // one reporter per service for the whole run, as an application has: whatever state a reporter keeps
+            // between `report()` calls is carried from batch to batch
+            let rep = {
+                let mut cache = JAEGER.lock().unwrap();
+                cache
+                    .get_or_insert_with(HashMap::new)
+                    .entry(svc.clone())
+                    .or_insert_with(|| {
+                        Arc::new(Mutex::new(
+                            fastrace_jaeger::JaegerReporter::new(env.udp.local_addr().unwrap(), svc.clone()).unwrap(),
+                        ))
+                    })
+                    .clone()
+            };
             // C20: the call terminates — run it under a deadline
             let (done_tx, done_rx) = mpsc::channel::<bool>();
             std::thread::spawn(move || {
-                let r = catch_unwind(AssertUnwindSafe(move || rep.report(recs)));
+                let r = catch_unwind(AssertUnwindSafe(move || {
+                    let mut rep = rep.lock().unwrap_or_else(|e| e.into_inner());
+                    rep.report(recs)
+                }));
                 let _ = done_tx.send(r.is_ok());
             });
             match done_rx.recv_timeout(Duration::from_secs(10)) {
@@ -186,6 +204,33 @@ fn step(env: &Env, line: &str) -> String {
                 }
             }
             out
+        }
+        // a batch is reported while nothing listens on the agent's port (it is lost, as UDP allows); then the agent comes
+        // up and a second batch is reported through the same reporter: that one must arrive
+        ["jaegerLate", svc, recs1, recs2] => {
+            let (Some(svc), Some(recs1), Some(recs2)) = (str_of_hex(svc), parse_records(recs1), parse_records(recs2)) else {
+                return "bad-op".into();
+            };
+            for _attempt in 0..5 {
+                let probe = UdpSocket::bind("127.0.0.1:0").unwrap();
+                let addr = probe.local_addr().unwrap();
+                drop(probe);
+                let mut rep = fastrace_jaeger::JaegerReporter::new(addr, svc.clone()).unwrap();
+                rep.report(recs1.clone());
+                std::thread::sleep(Duration::from_millis(30));
+                let Ok(agent) = UdpSocket::bind(addr) else { continue };
+                agent.set_read_timeout(Some(Duration::from_millis(300))).unwrap();
+                rep.report(recs2.clone());
+                let mut out = String::from("dg");
+                let mut buf = vec![0u8; 70000];
+                while let Ok((n, _)) = agent.recv_from(&mut buf) {
+                    out.push(' ');
+                    out.push_str(&hex_of_bytes(&buf[..n]));
+                    agent.set_read_timeout(Some(Duration::from_millis(50))).unwrap();
+                }
+                return out;
+            }
+            "bad-op could not re-bind the agent port".into()
         }
         ["datadog", svc, res, ty, recs] => {
             let (Some(svc), Some(res), Some(ty), Some(recs)) =
